@@ -154,25 +154,29 @@ theorem callOther_keeps_its (C : Crypto) (w : World) (src dst : Bytes) (f : Stri
   · -- governance
     split at h
     · split at h
+      · cases h; rfl
       · cases h
-      · split at h
-        · split at h
-          · cases h
-          · split at h
-            · cases h; rfl
-            · cases h
-        · cases h
     · split at h
-      · rename_i out _
-        unfold govFinish at h
-        split at h
+      · split at h
         · cases h
-        · rename_i w1 hs
-          have h1 := applySends_its _ _ _ _ hs
+        · split at h
+          · split at h
+            · cases h
+            · split at h
+              · cases h; rfl
+              · cases h
+          · cases h
+      · split at h
+        · rename_i out _
+          unfold govFinish at h
           split at h
-          · cases h; exact h1
-          · cases h; simp only [addPending]; exact h1
-      · cases h
+          · cases h
+          · rename_i w1 hs
+            have h1 := applySends_its _ _ _ _ hs
+            split at h
+            · cases h; exact h1
+            · cases h; simp only [addPending]; exact h1
+        · cases h
   · cases h
 
 end Axelar.World
